@@ -343,15 +343,16 @@ void ebpps_sample<T,A>::serialize(std::ostream& os, const SerDe& sd) const {
 
 template<typename T, typename A>
 template<typename SerDe>
-std::pair<ebpps_sample<T, A>, size_t> ebpps_sample<T, A>::deserialize(const uint8_t* ptr, size_t size, const SerDe& sd, const A& allocator) {
+std::pair<ebpps_sample<T, A>, size_t> ebpps_sample<T, A>::deserialize(const uint8_t* ptr, size_t size, uint32_t k, const SerDe& sd, const A& allocator) {
   const uint8_t* st_ptr = ptr;
   const uint8_t* end_ptr = ptr + size;
 
   ensure_minimum_memory(size, sizeof(double));
   double c;
   ptr += copy_from_mem(ptr, c);
-  if (c < 0.0)
-    throw std::runtime_error("sketch image has C < 0.0 during deserializaiton");
+  // the sample holds at most k full items (this also rejects NaN before the value sizes an allocation)
+  if (!(c >= 0.0) || !(c < static_cast<double>(k) + 1.0))
+    throw std::runtime_error("sketch image has C outside of [0, k] during deserializaiton");
 
   double c_int;
   const double c_frac = std::modf(c, &c_int);
@@ -383,10 +384,12 @@ std::pair<ebpps_sample<T, A>, size_t> ebpps_sample<T, A>::deserialize(const uint
 
 template<typename T, typename A>
 template<typename SerDe>
-ebpps_sample<T, A> ebpps_sample<T, A>::deserialize(std::istream& is, const SerDe& sd, const A& allocator) {
+ebpps_sample<T, A> ebpps_sample<T, A>::deserialize(std::istream& is, uint32_t k, const SerDe& sd, const A& allocator) {
   const double c = read<double>(is);
-  if (c < 0.0)
-    throw std::runtime_error("sketch image has C < 0.0 during deserializaiton");
+  if (!is.good()) throw std::runtime_error("error reading from std::istream");
+  // the sample holds at most k full items (this also rejects NaN before the value sizes an allocation)
+  if (!(c >= 0.0) || !(c < static_cast<double>(k) + 1.0))
+    throw std::runtime_error("sketch image has C outside of [0, k] during deserializaiton");
 
   double c_int;
   const double c_frac = std::modf(c, &c_int);
